@@ -54,6 +54,7 @@ FOREIGN_FUNCS = {}    # module-level functions of top-level package modules, lik
 FOREIGN = {}          # method name -> FunctionDef: methods of package classes (defined once in the whole package, not known to the rule tables,
                       # touching only their own object) that callers in other classes / modules may have inlined
 STATICS = {}          # (class name, method name) -> FunctionDef: static methods, unknown to the rule tables, of classes defined once (called as `K.m(..)`; filled by build_foreign)
+NULLNESS = None       # sa.nullness.Nullness of the package (never-None facts about results, private parameters, queue elements), set by the loader
 PURE_PROPS = {}       # property name -> (name of self, returned expression): read-only properties unknown to the rule tables whose name is defined once in the package (filled by build_foreign)
 RECORDS = {}          # class name -> (ClassDef, home module, {method: (FunctionDef, needs)}, fields): small record classes unknown to the rule tables (filled by build_foreign)
 SIGS = {}      # simple name -> parameter list, for classes (constructor, without self) and module-level functions defined once in the package
@@ -1283,7 +1284,7 @@ class FuncCanon(object):
         changed = False
         for blk in _all_blocks(self.fn):
             top = blk is self.fn.body
-            if self.prop(blk) or self.lencomp(blk) or self.star(blk) or self.callsel(blk) or self.tuplepush(blk) or self.sumloop(blk) or self.listcomp(blk) or self.unroll(blk) or self.listbuild(blk) or self.lockwith(blk) or self.flagloop(blk) or self.ifflag(blk) or self.thread(blk) or self.deadstore(blk) or self.kw(blk) or self.split(blk) or self.retsplit(blk) or self.unindex(blk) or self.yieldsplit(blk) or self.forelse(blk) or self.dowhile(blk) or self.withsink(blk) or self.testsplit(blk) or self.rot(blk) or self.brk(blk, top) or self.wtop(blk) or self.ifs(blk) or self.sink(blk) or self.unpack(blk) or self.fwd(blk):
+            if self.prop(blk) or self.lencomp(blk) or self.star(blk) or self.callsel(blk) or self.tuplepush(blk) or self.sumloop(blk) or self.listcomp(blk) or self.unroll(blk) or self.listbuild(blk) or self.copyinout(blk) or self.lockwith(blk) or self.flagloop(blk) or self.ifflag(blk) or self.thread(blk) or self.deadstore(blk) or self.kw(blk) or self.split(blk) or self.retsplit(blk) or self.unindex(blk) or self.yieldsplit(blk) or self.forelse(blk) or self.dowhile(blk) or self.withsink(blk) or self.testsplit(blk) or self.rot(blk) or self.brk(blk, top) or self.wtop(blk) or self.ifs(blk) or self.sink(blk) or self.unpack(blk) or self.fwd(blk):
                 return True
         return changed
 
@@ -1579,6 +1580,48 @@ class FuncCanon(object):
             return True
         return False
 
+    # -- COPYINOUT -------------------------------------------------------------------------------------------------
+    def copyinout(self, blk):
+        """`t = v` ; .. (t read and updated, v untouched) .. ; `v = t`   ->   the same statements on v itself, for a temporary t the inliner made for a
+        parameter the helper updates.  On the way v changes earlier than before, which nobody can see: the statements in between leave only by
+        `return` / `raise` (v dies with the frame; the function has no try statement and is no closure over v), and t is not used afterwards."""
+        if any(isinstance(n, ast.Try) for n, _ in _fn_nodes(self.fn)):
+            return False
+        for a in range(len(blk) - 1):
+            st = blk[a]
+            if not (isinstance(st, ast.Assign) and len(st.targets) == 1 and isinstance(st.targets[0], ast.Name) and isinstance(st.value, ast.Name)):
+                continue
+            t, v = st.targets[0].id, st.value.id
+            if t not in self.fresh or t == v or v in self.captured or t in self.captured or v in self.params and False:
+                continue
+            b = None
+            for k in range(a + 1, len(blk)):
+                s_ = blk[k]
+                if isinstance(s_, ast.Assign) and len(s_.targets) == 1 and isinstance(s_.targets[0], ast.Name) and s_.targets[0].id == v and isinstance(s_.value, ast.Name) and s_.value.id == t:
+                    b = k
+                    break
+                if any(isinstance(n, ast.Name) and n.id == v for n in ast.walk(s_)):
+                    break
+                if _contains_own([s_], ast.Break) or _contains_own([s_], ast.Continue) or isinstance(s_, (ast.While, ast.For, ast.AsyncFor, ast.FunctionDef, ast.AsyncFunctionDef, ast.ClassDef)):
+                    break
+                if any(isinstance(n, (ast.Yield, ast.YieldFrom)) for n in ast.walk(s_)):
+                    break
+            if b is None:
+                continue
+            region = set(id(n) for s_ in blk[a:b + 1] for n in ast.walk(s_))
+            occ = self.loads.get(t, []) + self.stores.get(t, [])
+            if any(id(n) not in region for n in occ):
+                continue
+            for s_ in blk[a + 1:b]:
+                for n in ast.walk(s_):
+                    if isinstance(n, ast.Name) and n.id == t:
+                        n.id = v
+            del blk[b]
+            del blk[a]
+            self.bump("COPYINOUT")
+            return True
+        return False
+
     # -- LISTBUILD -------------------------------------------------------------------------------------------------
     def listbuild(self, blk):
         """`v = [a] ; .. ; v.append(b) ; .. ; v.append(c)`   ->   `_lb0 = a ; .. ; _lb1 = b ; .. ; v = [_lb0, _lb1, c]`
@@ -1852,30 +1895,106 @@ class FuncCanon(object):
     def ifflag(self, blk):
         """`if c: A; v = K1` / `else: B; v = K2` ; `if T(v): S`   ->   `if c: A; if T(K1): S` / `else: B; if T(K2): S`
         when v (a local nobody else reads) is set to a literal at the very end of every arm: the test that follows is evaluated at the
-        same point of either path, with v known (jump threading through a flag a helper returned)."""
+        same point of either path, with v known (jump threading through a flag a helper returned).
+        Likewise for a value-or-None result: `.. v = None` / `.. v = E` with E never None (sa/nullness.py), followed by a test that reads v only
+        as `v is None` / `v is not None`: each arm knows the answer; v itself stays (it may be used afterwards)."""
         for i in range(len(blk) - 1):
             st, nxt = blk[i], blk[i + 1]
+            if self._ifflag_at(blk, i):
+                return True
+        return False
+
+    def _ifflag_at(self, blk, i):
+        for _once in (0,):
+            st, nxt = blk[i], blk[i + 1]
+            if isinstance(st, ast.Assign) and len(st.targets) == 1 and isinstance(st.targets[0], ast.Name) and isinstance(st.value, ast.IfExp) and isinstance(nxt, ast.If) \
+                    and any(isinstance(a, ast.Constant) and a.value is None for a in (st.value.body, st.value.orelse)) \
+                    and any(isinstance(c, ast.Compare) and len(c.ops) == 1 and isinstance(c.ops[0], (ast.Is, ast.IsNot)) and isinstance(c.left, ast.Name) and c.left.id == st.targets[0].id
+                            and isinstance(c.comparators[0], ast.Constant) and c.comparators[0].value is None for c in ast.walk(nxt.test)):
+                # `v = E if c else None` ; `if v is None: ..`  ->  the conditional expression becomes a statement, so that each arm can decide the test
+                v_ = st.targets[0].id
+                a1 = ast.copy_location(ast.Assign(targets=[ast.Name(id=v_, ctx=ast.Store())], value=st.value.body), st)
+                a2 = ast.copy_location(ast.Assign(targets=[ast.Name(id=v_, ctx=ast.Store())], value=st.value.orelse), st)
+                new_if = ast.copy_location(ast.If(test=st.value.test, body=[a1], orelse=[a2]), st)
+                ast.fix_missing_locations(new_if)
+                blk[i] = new_if
+                if self._ifflag_at(blk, i):
+                    return True
+                blk[i] = st
+                return False
             if not (isinstance(st, ast.If) and st.orelse and isinstance(nxt, ast.If)):
                 continue
 
-            def tail_flag(arm):
+            def tail_flag(arm, literal):
                 while arm and isinstance(arm[-1], ast.If) and arm[-1].orelse:
-                    a = tail_flag(arm[-1].body)
-                    return a if a is not None and a == tail_flag(arm[-1].orelse) else None
-                if arm and isinstance(arm[-1], ast.Assign) and len(arm[-1].targets) == 1 and isinstance(arm[-1].targets[0], ast.Name) and isinstance(arm[-1].value, ast.Constant):
+                    a = tail_flag(arm[-1].body, literal)
+                    return a if a is not None and a == tail_flag(arm[-1].orelse, literal) else None
+                if arm and isinstance(arm[-1], ast.Assign) and len(arm[-1].targets) == 1 and isinstance(arm[-1].targets[0], ast.Name) and (isinstance(arm[-1].value, ast.Constant) or not literal):
                     return arm[-1].targets[0].id
                 return None
-            v = tail_flag(st.body)
-            if v is None or tail_flag(st.orelse) != v or v in self.params or v in self.captured:
+            mode = "literal"
+            v = tail_flag(st.body, True)
+            if v is None or tail_flag(st.orelse, True) != v:
+                v = tail_flag(st.body, False)
+                mode = "none"
+                if v is None or tail_flag(st.orelse, False) != v or NULLNESS is None:
+                    continue
+            if v in self.params or v in self.captured:
                 continue
             loads = self.loads.get(v, [])
             in_test = set(id(n) for n in ast.walk(nxt.test))
-            if not loads or any(id(n) not in in_test for n in loads):
+            if not any(id(n) in in_test for n in loads):
+                continue
+            if mode == "literal" and any(id(n) not in in_test for n in loads):
                 continue
             if any(isinstance(n, (ast.NamedExpr, ast.Await, ast.Yield, ast.YieldFrom, ast.Lambda)) for n in ast.walk(nxt.test)):
                 continue
             if _size(nxt.body) + _size(nxt.orelse) > 8:
                 continue
+            if mode == "none":
+                # every read of v in the test is the left side of `v is None` / `v is not None`
+                cmps = [c for c in ast.walk(nxt.test) if isinstance(c, ast.Compare) and len(c.ops) == 1 and isinstance(c.ops[0], (ast.Is, ast.IsNot)) and isinstance(c.left, ast.Name) and c.left.id == v
+                        and isinstance(c.comparators[0], ast.Constant) and c.comparators[0].value is None]
+                if not cmps or set(id(c.left) for c in cmps) != set(id(n) for n in loads if id(n) in in_test):
+                    continue
+                # every arm's value is None or provably not None
+                cls_ = getattr(self.fn, "_sa_cls", None)
+                asg = NULLNESS.local_assigns(self.fn)
+
+                asg_wo = {k: x for k, x in asg.items() if k != v}         # the name being assigned must not count as its own witness
+
+                def last_def_nn(name, prefix):
+                    """the closest assignment of `name` in the straight-line statements before this point makes it never None (None: not found)"""
+                    for s_ in reversed(prefix):
+                        if isinstance(s_, ast.AugAssign) and isinstance(s_.target, ast.Name) and s_.target.id == name:
+                            return True          # the result of an augmented assignment of numbers / bytes is a value
+                        if isinstance(s_, ast.Assign) and len(s_.targets) == 1 and isinstance(s_.targets[0], ast.Name) and s_.targets[0].id == name:
+                            return NULLNESS.nn(s_.value, cls_, self.fn, asg_wo, None, NONNULL_CONSTS)
+                        if any(isinstance(n, ast.Name) and n.id == name and isinstance(n.ctx, (ast.Store, ast.Del)) for n in ast.walk(s_)):
+                            return None
+                        if isinstance(s_, (ast.While, ast.For, ast.AsyncFor, ast.Try, ast.With, ast.AsyncWith)) and False:
+                            return None
+                    return None
+
+                def ordered(test, name):
+                    """the test compares `name` by <, <=, >, >= (evaluated without a TypeError: the name is not None)"""
+                    return any(isinstance(c, ast.Compare) and len(c.ops) == 1 and isinstance(c.ops[0], (ast.Lt, ast.LtE, ast.Gt, ast.GtE))
+                               and any(isinstance(x, ast.Name) and x.id == name for x in (c.left, c.comparators[0])) for c in ast.walk(test)) \
+                        and not any(isinstance(b, ast.BoolOp) for b in ast.walk(test))
+
+                def decided(arm, prefix, guards):
+                    last = arm[-1]
+                    if isinstance(last, ast.If):
+                        return decided(last.body, prefix + arm[:-1], guards + [last.test]) and decided(last.orelse, prefix + arm[:-1], guards + [last.test])
+                    val = last.value
+                    if isinstance(val, ast.Constant) and val.value is None:
+                        return True
+                    if isinstance(val, ast.Name) and val.id != v:
+                        if last_def_nn(val.id, prefix + arm[:-1]) is True or any(ordered(t_, val.id) for t_ in guards):
+                            return True
+                    return NULLNESS.nn(val, cls_, self.fn, asg_wo, None, NONNULL_CONSTS)
+                if not (decided(st.body, blk[:i], [st.test]) and decided(st.orelse, blk[:i], [st.test])):
+                    continue
 
             def push(arm):
                 last = arm[-1]
@@ -1884,12 +2003,21 @@ class FuncCanon(object):
                     push(last.orelse)
                     return
                 k = last.value
-
-                class R(ast.NodeTransformer):
-                    def visit_Name(self, n):
-                        return ast.copy_location(ast.Constant(value=k.value), n) if n.id == v and isinstance(n.ctx, ast.Load) else n
                 new = copy.deepcopy(nxt)
-                new.test = R().visit(new.test)
+                if mode == "literal":
+                    class R(ast.NodeTransformer):
+                        def visit_Name(self, n):
+                            return ast.copy_location(ast.Constant(value=k.value), n) if n.id == v and isinstance(n.ctx, ast.Load) else n
+                    new.test = R().visit(new.test)
+                else:
+                    isnone = isinstance(k, ast.Constant) and k.value is None
+
+                    class R2(ast.NodeTransformer):
+                        def visit_Compare(self, c):
+                            if len(c.ops) == 1 and isinstance(c.ops[0], (ast.Is, ast.IsNot)) and isinstance(c.left, ast.Name) and c.left.id == v and isinstance(c.comparators[0], ast.Constant) and c.comparators[0].value is None:
+                                return ast.copy_location(ast.Constant(value=isnone if isinstance(c.ops[0], ast.Is) else not isnone), c)
+                            return self.generic_visit(c)
+                    new.test = R2().visit(new.test)
                 arm.append(new)
             push(st.body)
             push(st.orelse)
@@ -2000,6 +2128,21 @@ class FuncCanon(object):
                         del blk[i]
                     self.bump("DEADSTORE")
                     return True
+        # `v = <literal>` directly before the function is left (`return` / `raise` that do not read v; no enclosing try-finally could read it either
+        # when v is never read inside a finally block): the store dies with the frame
+        for i in range(len(blk) - 1):
+            st, nxt = blk[i], blk[i + 1]
+            if isinstance(st, ast.Assign) and len(st.targets) == 1 and isinstance(st.targets[0], ast.Name) and isinstance(st.value, ast.Constant) \
+                    and isinstance(nxt, (ast.Return, ast.Raise)) and not any(isinstance(n, ast.Name) and n.id == st.targets[0].id for n in ast.walk(nxt)):
+                v = st.targets[0].id
+                if v in self.params or v in self.captured:
+                    continue
+                in_finally = any(isinstance(t, ast.Try) and any(isinstance(n, ast.Name) and n.id == v for fb in t.finalbody for n in ast.walk(fb)) for t, _ in _fn_nodes(self.fn))
+                if in_finally or any(isinstance(n, (ast.Global, ast.Nonlocal)) for n, _ in _fn_nodes(self.fn)):
+                    continue
+                del blk[i]
+                self.bump("DEADSTORE")
+                return True
         return False
 
     # -- KW --------------------------------------------------------------------------------------------------------
@@ -2345,6 +2488,25 @@ class FuncCanon(object):
             lp = blk[i]
             if not (isinstance(lp, ast.While) and not lp.orelse and len(lp.body) >= 1 and not _is_const_true(lp.test)):
                 continue
+            # `v = f(.., K, ..)` ; `while T(v): .. ; v = f(.., v, ..)`: the priming call is the loop's call with v = K   ->   `v = K ; v = f(.., v, ..)`
+            pre, last = blk[i - 1], lp.body[-1]
+            if isinstance(pre, ast.Assign) and isinstance(last, ast.Assign) and len(pre.targets) == 1 and len(last.targets) == 1 and isinstance(pre.targets[0], ast.Name) \
+                    and isinstance(last.targets[0], ast.Name) and pre.targets[0].id == last.targets[0].id and _dump(pre) != _dump(last):
+                v = pre.targets[0].id
+                c1 = pre.value.value if isinstance(pre.value, ast.Await) else pre.value
+                c2 = last.value.value if isinstance(last.value, ast.Await) else last.value
+                if isinstance(c1, ast.Call) and isinstance(c2, ast.Call) and isinstance(pre.value, ast.Await) == isinstance(last.value, ast.Await) and _dump(c1.func) == _dump(c2.func) \
+                        and len(c1.args) == len(c2.args) and [k.arg for k in c1.keywords] == [k.arg for k in c2.keywords] and v not in self.params and v not in self.captured:
+                    pairs = list(zip(c1.args, c2.args)) + [(a.value, b.value) for a, b in zip(c1.keywords, c2.keywords)]
+                    diff = [(a, b) for a, b in pairs if _dump(a) != _dump(b)]
+                    before = [n for st_ in blk[:i - 1] for n in ast.walk(st_) if isinstance(n, ast.Name) and n.id == v]
+                    if len(diff) == 1 and isinstance(diff[0][0], ast.Constant) and isinstance(diff[0][1], ast.Name) and diff[0][1].id == v and not before \
+                            and not any(isinstance(n, ast.Name) and n.id == v for a, b in pairs if _dump(a) == _dump(b) for n in ast.walk(a)):
+                        init = ast.copy_location(ast.Assign(targets=[ast.Name(id=v, ctx=ast.Store())], value=diff[0][0]), pre)
+                        ast.fix_missing_locations(init)
+                        blk[i - 1:i] = [init, copy.deepcopy(last)]
+                        self.bump("PRIMEVAR")
+                        return True
             compound = (ast.If, ast.While, ast.For, ast.Try, ast.With, ast.FunctionDef, ast.AsyncFunctionDef, ast.AsyncFor, ast.AsyncWith, ast.ClassDef)
             # the longest run (up to three simple statements) repeated before the loop and at the end of its body
             k = 0
@@ -4107,6 +4269,7 @@ def canonicalise(tree, modname, known, stats=None, log=None):
                 sa = stable_attrs(st)
                 for m in st.body:
                     if isinstance(m, (ast.FunctionDef, ast.AsyncFunctionDef)):
+                        m._sa_cls = st.name
                         yield m, mt, at, sa
 
     def normalise():
@@ -4180,6 +4343,8 @@ if __name__ == "__main__":
     CLASS_METHODS.update(build_class_methods(trees.values()))
     FOREIGN.clear()
     FOREIGN.update(build_foreign(trees, KNOWN))
+    from .nullness import Nullness
+    globals()["NULLNESS"] = Nullness(trees)
     RET_ARITY.clear()
     RET_ARITY.update(build_ret_arity(trees.values()))
     NONNULL_LIST_PARAMS.clear()
